@@ -107,4 +107,10 @@ def passes (raw : Graph) : Graph :=
   let g := prune (lateRemoval (earlyPass raw))
   dedupLoop g.states.size g
 
+/-- out of each state, every byte below 256 is in the class of at most one edge (true of every graph built
+from a DFA: a byte has one successor); side condition of the pruning and de-duplication theorems -/
+def edgesDisjoint (g : Graph) : Bool :=
+  (List.range g.states.size).all fun s =>
+    (List.range 256).all fun b => decide ((((g.get s).normal.filter fun e => inRanges e.ranges b)).length ≤ 1)
+
 end Logos.Passes
